@@ -520,7 +520,7 @@ func runKMount(c *core.Case, variant string, k int) {
 			q = fmt.Sprintf("INSERT INTO %s(id,k,v) VALUES(%d,%d,randomblob(%d))", t, nextID[t], c.Rng.IntN(1000), n)
 			nextID[t]++
 		case r < 46:
-			q = fmt.Sprintf("INSERT INTO %s(id,k,v) SELECT id+%d, k, randomblob(%d) FROM %s LIMIT %d", t, 1000000+step*1000, 50+c.Rng.IntN(400), t, 1+c.Rng.IntN(30))
+			q = fmt.Sprintf("INSERT OR IGNORE INTO %s(id,k,v) SELECT id+%d, k, randomblob(%d) FROM %s LIMIT %d", t, 1000000+step*1000, 50+c.Rng.IntN(400), t, 1+c.Rng.IntN(30))
 			must = false
 		case r < 58:
 			q = fmt.Sprintf("UPDATE %s SET v=randomblob(%d), k=k+1 WHERE id%%%d=0", t, 20+c.Rng.IntN(3000), 1+c.Rng.IntN(4))
